@@ -18,6 +18,8 @@ type Call struct {
 	Pod       *api.PodSandbox
 	Ctr       *api.Container
 	Res, Over *api.LinuxResources
+	SyncPods  []*api.PodSandbox
+	SyncCtrs  []*api.Container
 }
 
 // Rec is shared by all recorder types embedded in one plugin value.
@@ -176,6 +178,23 @@ func (h HConfigure) Configure(_ context.Context, config, runtime, version string
 	h.R.CfgCalls++
 	h.R.CfgConfig = config + "|" + runtime + "|" + version
 	return h.R.CfgMask, h.R.CfgErr
+}
+
+// HSynchronize makes a type implement the synchronization interface.
+type HSynchronize struct{ R *Rec }
+
+func (h HSynchronize) Synchronize(_ context.Context, pods []*api.PodSandbox, ctrs []*api.Container) ([]*api.ContainerUpdate, error) {
+	c := Call{Handler: "Synchronize"}
+	for _, p := range pods {
+		c.SyncPods = append(c.SyncPods, proto.Clone(p).(*api.PodSandbox))
+	}
+	for _, x := range ctrs {
+		c.SyncCtrs = append(c.SyncCtrs, proto.Clone(x).(*api.Container))
+	}
+	h.R.mu.Lock()
+	h.R.Calls = append(h.R.Calls, c)
+	h.R.mu.Unlock()
+	return h.R.updates(), nil
 }
 
 // Recorders lists the embedded type name per event bit (bit i = event number i+1 of api.Event).
